@@ -17,12 +17,12 @@ from .. import capyrun as R
 
 RULE = ("case = (expression kind, const position, layout of the referenced declarations, value): kinds = literal; `::` local bound to a literal / to another "
         "`::` local / to a global / to a comptime block / to a comptime parameter; `:=` local and `::` local bound to it; `::` global bound to a literal / to "
-        "another global (chains of 2 and 3) / to a comptime block / to an imported global; imported global (literal, chain, comptime); extern global "
+        "another global (chains of 2 and 3) / to a comptime block / to an imported global; imported global (literal, chain, comptime, bound to a global of a third file, the same with decoy reads of a fourth file); extern global "
         "(local file, imported, behind a `::` global); inline comptime block (of literals, of a global, of a call); comptime parameter; run-time parameter; "
         "arithmetic, call and member access (inline, bound to a `::` local, bound to a `::` global). positions = array length (local annotation, global alias, "
         "struct field, parameter type), enum discriminant (local / global enum), comptime argument, type annotation (local, parameter type, struct field; "
         "type-valued versions of the kinds). layouts = every way to put the referenced globals/imports before or after the use, in both dependency orders. "
-        "quick = every (kind, position, layout) once with a random value; thorough = 12 random values each. non-trivial = reached a verdict; "
+        "quick = every (kind, position) with a random value in at most 2 sub-positions and 2 random layouts; thorough = every layout with 8 random values each. non-trivial = reached a verdict; "
         "distinct = distinct (kind, position, layout) tuples")
 ASSUME = ["const by the README rule: a literal, `::` binding to a literal / a const / a comptime block, a comptime block, a comptime parameter; arithmetic, calls, member "
           "access, run-time parameters, `:=` locals, extern globals and `::` bindings to any of those are NOT const (capy rejects all of them on the unchanged tree, "
@@ -75,6 +75,12 @@ def int_kinds(T, v, rng, untyped_ok):
     ks.append(K("imported_chain", "const", "o.N", decls=[imp], files={"o.capy": f"N : {T} : M;\nM : {T} : {v};\n"}))
     ks.append(K("imported_comptime", "const", "o.N", decls=[imp], files={"o.capy": f"N : {T} : comptime {{ {a} + {b} }};\n"}))
     ks.append(K("global_ref_imported", "const", "N", decls=[imp, f"N : {T} : o.N;"], files={"o.capy": f"N : {T} : {v};\n"}))
+    # a global of the imported file that is itself bound to a global of a third file; the decoy version also reads a same-named global
+    # (different value) of a fourth file next to the use, with a random number of statements in front
+    two = {"o.capy": f'q :: #import("q.capy");\nN : {T} : q.N;\n', "q.capy": f"N : {T} : {v};\n", "r.capy": f"N : {T} : {(v + 5) % 251};\n"}
+    ks.append(K("imported_ref_imported", "const", "o.N", decls=[imp], files=two))
+    pad = [f"z{i} := {i};" for i in range(rng.below(4))] + [f"y{i} := r.N;" for i in range(rng.range(1, 3))]
+    ks.append(K("imported_ref_imported_decoy", "const", "o.N", scope="local", decls=[imp, 'r :: #import("r.capy");'], locals_=pad, files=two))
     ks.append(K("extern_global", "nonconst", "N", decls=[f"N : {T} : extern;"]))
     ks.append(K("imported_extern", "nonconst", "o.N", decls=[imp], files={"o.capy": f"N : {T} : extern;\n"}))
     ks.append(K("global_ref_extern", "nonconst", "N", decls=[f"M : {T} : extern;", f"N : {T} : M;"]))
@@ -105,6 +111,16 @@ def int_kinds(T, v, rng, untyped_ok):
     return ks
 
 
+def decoy_kind(T, v, pad, parity):
+    """the imported global is bound to a global of a third file, main also reads a same-named global of a fourth file; `pad` globals in front of the
+    binding and `parity` extra statements in main shift the expression numbering of the two files against each other"""
+    other = (v + 5) % 251
+    o = 'q :: #import("q.capy");\n' + "".join(f"Z{i} : {T} : {i % 200};\n" for i in range(pad)) + f"N : {T} : q.N;\n"
+    files = {"o.capy": o, "q.capy": f"N : {T} : {v};\n", "r.capy": f"N : {T} : {other};\n"}
+    loc = [f"z{i} := {i};" for i in range(parity)] + [f"y{i} := r.N;" for i in range(8)]
+    return K("imported_ref_imported_decoy_sweep", "const", "o.N", scope="local", decls=['o :: #import("o.capy");', 'r :: #import("r.capy");'], locals_=loc, files=files)
+
+
 def type_kinds(rng):
     """type-valued kinds, all denoting i64"""
     imp = 'o :: #import("o.capy");'
@@ -122,6 +138,10 @@ def type_kinds(rng):
     ks.append(K("imported_lit", "const", "o.T", decls=[imp], files={"o.capy": "T :: i64;\n"}))
     ks.append(K("imported_chain", "const", "o.T", decls=[imp], files={"o.capy": "T :: U;\nU :: i64;\n"}))
     ks.append(K("global_ref_imported", "const", "T", decls=[imp, "T :: o.T;"], files={"o.capy": "T :: i64;\n"}))
+    two = {"o.capy": 'q :: #import("q.capy");\nT :: q.T;\n', "q.capy": "T :: i64;\n", "r.capy": "T :: i32;\n"}
+    ks.append(K("imported_ref_imported", "const", "o.T", decls=[imp], files=two))
+    pad = [f"z{i} := {i};" for i in range(rng.below(4))] + [f"y{i} : r.T = 1;" for i in range(rng.range(1, 3))]
+    ks.append(K("imported_ref_imported_decoy", "const", "o.T", scope="local", decls=[imp, 'r :: #import("r.capy");'], locals_=pad, files=two))
     ks.append(K("extern_global", "nonconst", "T", decls=["T : type : extern;"]))
     ks.append(K("imported_extern", "nonconst", "o.T", decls=[imp], files={"o.capy": "T : type : extern;\n"}))
     ks.append(K("comptime_inline", "const", "comptime { i64 }"))
@@ -188,8 +208,8 @@ def use_site(position, sub, X, v):
         elif sub == "struct_field":
             g, st, arr = [f"SA :: struct {{ a: [{X}]i64 }};"], ["sa : SA;"], "sa.a"
         else:
-            g = [f"pa :: (a: [{X}]i64) -> usize {{ a.len }}"]
-            return g, [f"arr : [{v}]i64;", "vr_u64(1, u64.(pa(arr)));"], {"U1": str(v)}
+            g = [f"pf :: (a: [{X}]i64) -> usize {{ a.len }}"]
+            return g, [f"arr : [{v}]i64;", "vr_u64(1, u64.(pf(arr)));"], {"U1": str(v)}
         st += [f"vr_u64(1, u64.({arr}.len));"] + [s.replace("{ARR}", arr) for s in idx]
         return g, st, ({"U1": str(v), "I2": "77"} if v >= 1 else {"U1": str(v)})
     if position == "discriminant":
@@ -205,7 +225,7 @@ def use_site(position, sub, X, v):
         if sub == "local_annot":
             return [], [f"x : {X} = {v};", "px : ^i64 = ^x;", "vr_i64(1, px^);"], {"I1": str(v)}
         if sub == "param_type":
-            return [f"pt :: (a: {X}) -> i64 {{ a }}"], [f"vr_i64(1, pt({v}));"], {"I1": str(v)}
+            return [f"pf :: (a: {X}) -> i64 {{ a }}"], [f"vr_i64(1, pf({v}));"], {"I1": str(v)}
         return [f"ST :: struct {{ f: {X} }};"], [f"st := ST.{{ f = {v} }};", "px : ^i64 = ^st.f;", "vr_i64(1, px^);"], {"I1": str(v)}
     raise ValueError(position)
 
@@ -230,7 +250,7 @@ def build(position, sub, k, layout, v, T):
 
 
 def cases(tier, rng):
-    reps = 1 if tier == "quick" else 12
+    reps = 1 if tier == "quick" else 8
     out = []
     for position, (T, subs_any, subs_global) in POSITIONS.items():
         for rep in range(reps):
@@ -244,9 +264,23 @@ def cases(tier, rng):
             kinds = type_kinds(rng) if T == "type" else int_kinds(T, v, rng, untyped_ok=True)
             for k in kinds:
                 subs = list(subs_any) + (list(subs_global) if k.scope == "global" else [])
+                if tier == "quick" and len(subs) > 2:
+                    subs = subs[:1] + rng.sample(subs[1:], 1)
                 for sub in subs:
-                    for lay in layouts(len(k.decls)):
+                    lays = layouts(len(k.decls))
+                    if tier == "quick" and len(lays) > 2:
+                        lays = rng.sample(lays, 2)
+                    for lay in lays:
                         out.append({"position": position, "sub": sub, "kind": k.name, "expect": k.expect, "layout": lay, "value": v, "T": T, "k": k})
+    # sweep of the relative expression numbering for the two-level import (a const_data lookup in the wrong body shows up only when the numbers collide)
+    sweep = [(pos, pad, par) for pos in ("array_len", "comptime_arg") for pad in range(0, 72) for par in (0, 1)]
+    if tier == "quick":
+        sweep = rng.sample([x for x in sweep if 12 <= x[1] < 40], 16)
+    for pos, pad, par in sweep:
+        v = rng.range(1, 240)
+        k = decoy_kind("usize", v, pad, par)
+        out.append({"position": pos, "sub": POSITIONS[pos][1][0], "kind": k.name, "expect": k.expect, "layout": rng.pick(["before", "after", "split"]), "value": v, "T": "usize", "k": k,
+                    "variant": f"pad{pad}/{par}"})
     return out
 
 
